@@ -1,6 +1,8 @@
 // Driver for the Zipf generators (C06, C19).  No scheduler is needed; the program links the harness
 // runtime only for the shim symbols.  Output: ndjson records for ZipfTrace / ZipfAbsTrace.
 #include <cinttypes>
+#include <cmath>
+#include <cstring>
 #include <mutex>
 #include <random>
 #include <thread>
@@ -195,12 +197,43 @@ Seq(const Gen &g, const char *cls, T mn, T mx, double alpha, const char *who, ui
   fputs(s.c_str(), out);
 }
 
+// a long sequence, logged sparsely: every `step`-th value together with a rolling hash of everything before it
+template <class Gen, class T>
+void
+LongSeq(const Gen &g, const char *cls, T mn, T mx, double alpha, const char *who, uint64_t seed, int len, int step)
+{
+  std::mt19937_64 eng{seed};
+  std::string s;
+  uint32_t h = 2166136261U;
+  for (int k = 0; k < len; ++k) {
+    T v = g(eng);
+    h = (h ^ static_cast<uint32_t>(static_cast<uint64_t>(v) ^ (static_cast<uint64_t>(v) >> 32U))) * 16777619U;
+    if (k % step != step - 1) continue;
+    char b[288];
+    snprintf(b, sizeof(b), "{\"e\":\"samp\",\"cls\":\"%s\",\"ty\":\"%s\",\"min\":\"%s\",\"max\":\"%s\",\"alpha\":\"%.17g\",\"who\":\"%s\",\"seed\":%" PRIu64 ",\"k\":%d,\"v\":\"%s#%u\"}\n",
+             cls, TyName<T>(), Dec(mn).c_str(), Dec(mx).c_str(), alpha, who, seed, 1000000 + k, Dec(v).c_str(), h & 0x7FFFFFFFU);
+    s += b;
+  }
+  std::lock_guard lk(log_mu);
+  fputs(s.c_str(), out);
+}
+
 template <class Gen, class T>
 void
 Purity(const char *cls, T mn, T mx, double alpha, uint64_t seed, int len, int nthreads)
 {
   Gen a{mn, mx, alpha};
   Gen b{mn, mx, alpha};
+  {
+    // "calling a generator does not change it": the object representation is the same before and after sampling
+    unsigned char before[sizeof(Gen)];
+    memcpy(before, static_cast<const void *>(&a), sizeof(Gen));
+    std::mt19937_64 eng{seed ^ 0x5bd1e995U};
+    for (int k = 0; k < 64; ++k) (void)a(eng);
+    const bool same = memcmp(before, static_cast<const void *>(&a), sizeof(Gen)) == 0;
+    fprintf(out, "{\"e\":\"bytes\",\"cls\":\"%s\",\"ty\":\"%s\",\"min\":\"%s\",\"max\":\"%s\",\"alpha\":\"%.17g\",\"same\":%d}\n", cls,
+            TyName<T>(), Dec(mn).c_str(), Dec(mx).c_str(), alpha, same);
+  }
   Seq<Gen, T>(a, cls, mn, mx, alpha, "orig", seed, len);
   Seq<Gen, T>(a, cls, mn, mx, alpha, "again", seed, len);          // calling it did not change it
   Seq<Gen, T>(b, cls, mn, mx, alpha, "equal", seed, len);          // equal parameters
@@ -222,6 +255,12 @@ Purity(const char *cls, T mn, T mx, double alpha, uint64_t seed, int len, int nt
     th.emplace_back([&, t] { Seq<Gen, T>(shared, cls, mn, mx, alpha, "thread", seed + static_cast<uint64_t>(t % 2), len * 4); });
   }
   for (auto &x : th) x.join();
+  // the same under real contention: long runs of all threads from one seed against the solo run
+  const int llen = 20000;
+  LongSeq<Gen, T>(a, cls, mn, mx, alpha, "solo-long", seed, llen, 2500);
+  std::vector<std::thread> th2;
+  for (int t = 0; t < nthreads; ++t) th2.emplace_back([&] { LongSeq<Gen, T>(shared, cls, mn, mx, alpha, "thread-long", seed, llen, 2500); });
+  for (auto &x : th2) x.join();
 }
 
 template <class Gen, class T>
@@ -281,6 +320,100 @@ GridC19(std::mt19937_64 &rng, bool thorough)
       Purity<ApproxZipfDistribution<T>, T>("A", mn, mx, a, seed, len, nthreads);
     }
 }
+// ---- C18 ------------------------------------------------------------------------------------------
+// CDF tables of the exact and the approximate class for one parameter tuple, as fixed-point integers TLC can compare:
+// q30 = floor(cdf * 2^30) (1.0 is exactly 2^30), q13 = round(cdf * 2^13) for the coarse reference computation, and the
+// four 16-bit quarters of the IEEE representation for bit-exact comparisons.
+static std::string
+Quarters(double d)
+{
+  uint64_t u;
+  memcpy(&u, &d, sizeof(u));
+  char b[64];
+  snprintf(b, sizeof(b), "[%u,%u,%u,%u]", static_cast<unsigned>(u >> 48U), static_cast<unsigned>((u >> 32U) & 0xFFFFU),
+           static_cast<unsigned>((u >> 16U) & 0xFFFFU), static_cast<unsigned>(u & 0xFFFFU));
+  return b;
+}
+
+static long
+Q(double d, int bits)
+{
+  if (!(d == d)) return -2;          // NaN
+  if (d < 0.0) return -1;
+  if (d > 1.0) return (1L << bits) + 1;
+  return bits == 30 ? static_cast<long>(std::floor(std::ldexp(d, bits))) : std::lround(std::ldexp(d, bits));
+}
+
+template <class T>
+void
+Table(T mn, long n, double alpha, int alpha10, bool with_exact, const std::vector<long> &ks)
+{
+  const T mx = static_cast<T>(mn + static_cast<T>(n - 1));
+  ApproxZipfDistribution<T> ap{mn, mx, alpha};
+  std::string sk = "[", se = "[", sa = "[", s13 = "[", qe = "[", qa = "[";
+  if (with_exact) {
+    ZipfDistribution<T> ex{mn, mx, alpha};
+    for (size_t i = 0; i < ks.size(); ++i) {
+      const char *c = i ? "," : "";
+      const double e = ex.GetCDF(static_cast<T>(ks[i])), a = ap.GetCDF(static_cast<T>(ks[i]));
+      sk += c + std::to_string(ks[i]);
+      se += c + std::to_string(Q(e, 30));
+      sa += c + std::to_string(Q(a, 30));
+      s13 += c + std::to_string(Q(e, 13));
+      if (n <= 128) { qe += c + Quarters(e); qa += c + Quarters(a); }
+    }
+  } else {
+    for (size_t i = 0; i < ks.size(); ++i) {
+      const char *c = i ? "," : "";
+      sk += c + std::to_string(ks[i]);
+      sa += c + std::to_string(Q(ap.GetCDF(static_cast<T>(ks[i])), 30));
+    }
+  }
+  fprintf(out, "{\"e\":\"tab\",\"ty\":\"%s\",\"min\":\"%s\",\"n\":%ld,\"alpha\":\"%.17g\",\"a10\":%d,\"hasex\":%d,\"ks\":%s],\"ex\":%s],\"ap\":%s],\"ex13\":%s],\"exq\":%s],\"apq\":%s]}\n",
+          TyName<T>(), Dec(mn).c_str(), n, alpha, alpha10, with_exact, sk.c_str(), se.c_str(), sa.c_str(), s13.c_str(), qe.c_str(), qa.c_str());
+}
+
+template <class T>
+void
+GridC18(std::mt19937_64 &rng, bool thorough)
+{
+  std::vector<int> a10s = {0, 5, 10, 15, 20, 30};
+  if (thorough) a10s.insert(a10s.end(), {1, 3, 8, 9, 12, 25, 40, 80});
+  std::vector<long> small = {1, 2, 3, 4, 5, 7, 8, 12, 16, 50, 99, 100, 101};
+  if (thorough) small.insert(small.end(), {6, 9, 10, 11, 13, 14, 15, 33, 64, 128, 129, 300});
+  for (int a10 : a10s) {
+    const double alpha = a10 / 10.0;
+    for (long n : small) {
+      std::vector<long> ks;
+      for (long k = 0; k < n; ++k) ks.push_back(k);
+      for (T mn : {static_cast<T>(0), static_cast<T>(1000)}) Table<T>(mn, n, alpha, a10, true, ks);
+    }
+    // n >= 1000: every bin up to 5000 bins, a dense sample beyond
+    std::vector<long> large = {1000, 1001, 1002, 1050, 1099, 1100, 1101, 1199, 1501, 1999, 5000};
+    if (thorough) {
+      for (long n = 1003; n < 1400; n += 3) large.push_back(n);
+      large.insert(large.end(), {2048, 2101, 3001, 10001, 20000, 100000});
+    }
+    for (long n : large) {
+      std::vector<long> ks;
+      if (n <= 5000) {
+        for (long k = 0; k < n; ++k) ks.push_back(k);
+      } else {
+        for (long k = 0; k < 300; ++k) ks.push_back(k);
+        for (int r = 0; r < 1500; ++r) ks.push_back(300 + static_cast<long>(rng() % static_cast<uint64_t>(n - 300)));
+        for (long k = n - 200; k < n; ++k) ks.push_back(k);
+        std::sort(ks.begin(), ks.end());
+        ks.erase(std::unique(ks.begin(), ks.end()), ks.end());
+      }
+      Table<T>(static_cast<T>(0), n, alpha, a10, true, ks);
+    }
+    // the approximate class alone on bin counts the exact class cannot hold: the last bin must still be exactly 1
+    for (long n : {1000000L, 50000000L}) {
+      std::vector<long> ks = {0, 1, 50, 99, 100, 101, n / 2, n - 2, n - 1};
+      Table<T>(static_cast<T>(0), n, alpha, a10, false, ks);
+    }
+  }
+}
 }  // namespace
 
 int
@@ -307,6 +440,10 @@ main(int argc, char **argv)
     GridC19<uint64_t>(rng, thorough);
     GridC19<int32_t>(rng, thorough);
     GridC19<int64_t>(rng, thorough);
+  } else if (mode == "c18") {
+    GridC18<uint32_t>(rng, thorough);
+    GridC18<int64_t>(rng, thorough);
+    if (thorough) { GridC18<uint64_t>(rng, thorough); GridC18<int32_t>(rng, thorough); }
   } else if (mode == "c19cons") {
     GridC19Cons<uint32_t>();
     GridC19Cons<uint64_t>();
